@@ -33,12 +33,13 @@ def _validate_write(trace):
     raise common.ToolError("TraceMuxWrite failed without a verdict:\n" + r.out[-1500:])
 
 
-def _model_write():
+def _model_write(tier="quick"):
     res = {}
+    consts = "FrameSize = 3 MaxBytes = 9 MaxCall = 4" if tier == "quick" else "FrameSize = 5 MaxBytes = 40 MaxCall = 12"
     for weaken in ("none", "detach_before_reserve"):
         cfgname = "MC_MuxWrite_gen.cfg"
         with open(os.path.join(common.SPECS, "network", cfgname), "w") as f:
-            f.write(f'CONSTANTS FrameSize = 3 MaxBytes = 9 MaxCall = 4 Weaken = "{weaken}"\nINIT Init\nNEXT Next\nINVARIANTS NoHole Complete\nCHECK_DEADLOCK FALSE\n')
+            f.write(f'CONSTANTS {consts} Weaken = "{weaken}"\nINIT Init\nNEXT Next\nINVARIANTS NoHole Complete\nCHECK_DEADLOCK FALSE\n')
         try:
             res[weaken] = common.tlc("network", "MuxWrite", cfg=cfgname, workers=2, timeout=600)
         finally:
@@ -54,7 +55,7 @@ def run(tier, seed):
     t0 = time.time()
     common.cargo_build()
     d = common.outdir(PROP)
-    mw = _model_write()
+    mw = _model_write(tier)
     cfgname = "MC_Mux_gen.cfg"
     with open(os.path.join(common.SPECS, "network", cfgname), "w") as f:
         f.write(f"CONSTANTS MaxInc = {2 if tier == 'quick' else 3} MaxData = 2\nSPECIFICATION Spec\nINVARIANTS Isolation EosLocal Matched\nCHECK_DEADLOCK FALSE\n")
